@@ -30,7 +30,9 @@ def c02_r3(ctx):
     if not snd.dominates(ser[0][0], ser[1][0]) or not rcv.dominates(des[0][0], des[1][0]):
         ctx.viol('%s|order' % snd.path, snd.at, 'header and body are not (de)serialised in a fixed order', None)
     hdr_i = 0 if 'MessageHeader' in s_val[0] else 1
-    if 'MessageHeader' not in s_val[hdr_i] or s_val[1 - hdr_i] != 'msg':
+    msg_p = q.param(snd, 'NetworkMessage')
+    dest_p = q.param(snd, 'ReceiverEndpoint')
+    if 'MessageHeader' not in s_val[hdr_i] or s_val[1 - hdr_i] not in (msg_p, '*' + msg_p, '&' + msg_p):
         ctx.viol('%s|what' % snd.path, snd.at, 'remote_send must serialise the MessageHeader and then the message (found %s)' % s_val, None)
     if hdr_i != 0:
         ctx.viol('%s|header-not-first' % snd.path, snd.at, 'remote_send writes the body before the header', None)
@@ -47,7 +49,7 @@ def c02_r3(ctx):
         raise AnchorMissing('remote_send builds no MessageHeader')
     fields = dict(zip(hdr[0][1]['rv']['fields'], [render(strip(ss.operand(o))) for o in hdr[0][1]['rv']['o']]))
     ctx.inst('remote_send|header fields', {k: v[:80] for k, v in fields.items()})
-    if fields.get('replica_id') != 'dest.coord.replica_id' or fields.get('sender_block_id') != 'dest.prev_block_id':
+    if fields.get('replica_id') != dest_p + '.coord.replica_id' or fields.get('sender_block_id') != dest_p + '.prev_block_id':
         ctx.viol('%s|header-fields' % snd.path, hdr[0][1]['at'],
                  'the header must carry replica_id = dest.coord.replica_id and sender_block_id = dest.prev_block_id (found %s)'
                  % {k: fields.get(k) for k in ('replica_id', 'sender_block_id')}, None)
@@ -184,7 +186,8 @@ def c02_r6(ctx):
     sends = [(bi, t) for bi, t in ns.calls() if (t['callee'].get('path') or '').endswith('channel::Sender::<T>::send')]
     vals = [render(strip(s3.operand(t['args'][1]))) for _, t in sends]
     ctx.inst('NetworkSender::send', {'sent values': vals})
-    if sorted(vals) != sorted(['(self.receiver_endpoint, message)', 'message']):
+    mp = q.param(ns, 'NetworkMessage')
+    if sorted(vals) != sorted(['(self.receiver_endpoint, %s)' % mp, mp]):
         ctx.viol('%s|payload' % ns.path, ns.at,
                  'NetworkSender::send must hand `message` to the local channel and `(self.receiver_endpoint, message)` to the multiplexer (found %s)' % vals, None)
     # every path sends: no return reachable without a send
@@ -217,12 +220,13 @@ def c02_r7(ctx):
     ins = [(bi, t) for bi, t in rc.calls() if (t['callee'].get('path') or '').endswith('HashMap::<K, V, S, A>::insert') and len(t['args']) == 3]
     keys = [render(strip(sym.operand(t['args'][1]))) for _, t in ins]
     ctx.inst('register_channel|insert keys', {'keys': keys})
-    if len(ins) < 4 or any(k != 'receiver_endpoint' for k in keys):
+    ep_p = q.param(rc, 'ReceiverEndpoint')      # the endpoint being registered (by type, not by name)
+    if len(ins) < 4 or any(k != ep_p for k in keys):
         ctx.viol('%s|key' % rc.path, rc.at, 'register_channel stores a sender/receiver under a key other than the endpoint being registered (%s)' % keys, None)
     lc = [(bi, t) for bi, t in rc.calls() if (t['callee'].get('path') or '').endswith('local_channel')]
     for bi, t in lc:
         a = render(strip(sym.operand(t['args'][0])))
-        if a != 'receiver_endpoint':
+        if a != ep_p:
             ctx.viol('%s|channel-endpoint' % rc.path, t['at'], 'a local channel is created for `%s` instead of the endpoint being registered' % a, None)
     for name in ('get_sender', 'get_receiver'):
         g = facts.method(TOPO, name)
@@ -231,7 +235,8 @@ def c02_r7(ctx):
                  if (t['callee'].get('path') or '').rsplit('::', 1)[-1] in ('get', 'remove', 'contains_key') and len(t['args']) > 1
                  and 'HashMap' in (t['callee'].get('path') or '')]
         ctx.inst('%s|lookups' % name, {'keys': [k for _, k in looks]})
-        if not looks or any(k != 'receiver_endpoint' for _, k in looks):
+        gp = q.param(g, 'ReceiverEndpoint')
+        if not looks or any(k != gp for _, k in looks):
             ctx.viol('%s|lookup-key' % g.path, g.at, '%s looks a channel end up under a key other than the requested endpoint (%s)' % (name, [k for _, k in looks]), None)
     gs = facts.method(TOPO, 'get_senders')
     fam = facts.family(gs)
@@ -242,7 +247,8 @@ def c02_r7(ctx):
             if (t['callee'].get('path') or '').endswith('ReceiverEndpoint::new'):
                 eps.append((render(strip(s2.operand(t['args'][0])))[-40:], render(strip(s2.operand(t['args'][1])))[-40:]))
     ctx.inst('get_senders|endpoints', {'ReceiverEndpoint::new args': eps})
-    if not eps or not all(b.endswith('coord.block_id') for a, b in eps):
+    cp = q.param(gs, 'Coord')
+    if not eps or not all(b.endswith(cp + '.block_id') for a, b in eps):
         ctx.viol('%s|endpoint' % gs.path, gs.at, 'get_senders builds receiver endpoints whose previous block is not the sender\'s own block (%s)' % eps, None)
 
 
